@@ -151,6 +151,10 @@ async fn run(input: RunInput, mode: Mode) -> RunOutput {
     // (not on every node: a sender without a limit gets its request refused by the receiver)
     let frame_limit = w.flag("frame_limit", 0.25).then(|| w.param("max_frame_size", 2_000, 20_000) as usize);
     let limited: Vec<bool> = { let mut rl = w.rng("cfg:frame-limited-nodes"); (0..5).map(|_| rl.gen_bool(0.6)).collect() };
+    // the application's service may exert backpressure (tower's ConcurrencyLimit, shared by all
+    // connections of a node): a connection whose next request has to wait for the service is
+    // watched for its end like any other
+    let backpressure = w.flag("service_backpressure", 0.25).then(|| w.param("service_slots", 1, 2) as usize);
     let cfg_for = |i: usize| { let mut c = cfg.clone(); c.max_frame_size = frame_limit.filter(|_| limited[i]); c };
     let mut link = LinkCfg::clean(200, lat_max);
     if faulty {
@@ -162,7 +166,11 @@ async fn run(input: RunInput, mode: Mode) -> RunOutput {
     for i in 0..n {
         let svc = Svc::echo(&w);
         let svc_h = svc.handle();
-        let node = w.start_node(w.spec(i as u8 + 1, cfg_for(i)), svc).unwrap();
+        let node = match backpressure {
+            Some(k) => w.start_node(w.spec(i as u8 + 1, cfg_for(i)), tower::limit::ConcurrencyLimit::new(svc, k)),
+            None => w.start_node(w.spec(i as u8 + 1, cfg_for(i)), svc),
+        }
+        .unwrap();
         let log = start_watch(&w, &node, i, 0);
         let subs = vec![Subscription::new(&node.net).unwrap()];
         slots.push(Slot { node, log, subs, incarnation: 0, svc: svc_h });
@@ -191,6 +199,7 @@ async fn run(input: RunInput, mode: Mode) -> RunOutput {
     let cpu_bound = w.flag("cpu_bound_handlers", 0.3);
     let mut r_cpu = w.rng("wl:cpu-bound");
     let mut r_hangup = w.rng("wl:hangup");
+    let mut holder_until = vec![0u64; 5];
     // explicit disconnects on a clean network: (time, who disconnected, whom)
     let mut clean_disconnects: Vec<(u64, usize, usize)> = Vec::new();
     // instants at which a node was cut off from everybody (silent death, crash before a restart)
@@ -200,8 +209,12 @@ async fn run(input: RunInput, mode: Mode) -> RunOutput {
         if cpu_bound && r_cpu.gen_bool(0.35) {
             let a = r_cpu.gen_range(0..n);
             let b = (a + 1 + r_cpu.gen_range(0..n - 1)) % n;
-            let hold_ms: u64 = if r_cpu.gen_bool(0.6) { r_cpu.gen_range(50..1_500) } else { bound_ns / 1_000_000 + r_cpu.gen_range(500..3_000) };
-            if slots[a].node.net.peers().contains(&ids[b]) && silent_death.map(|(_, d)| d != a && d != b).unwrap_or(true) {
+            // (with backpressure: short ones only, and one at a time per server, so that the bounded
+            // probes of other operations are not starved by the harness itself)
+            let hold_ms: u64 = if backpressure.is_some() || r_cpu.gen_bool(0.6) { r_cpu.gen_range(50..1_500) } else { bound_ns / 1_000_000 + r_cpu.gen_range(500..3_000) };
+            let free = backpressure.is_none() || holder_until[b] <= w.now_ns();
+            if free && slots[a].node.net.peers().contains(&ids[b]) && silent_death.map(|(_, d)| d != a && d != b).unwrap_or(true) {
+                holder_until[b] = w.now_ns() + (hold_ms + 50) * 1_000_000;
                 let net = slots[a].node.net.clone();
                 let pb = ids[b];
                 tokio::spawn(async move {
@@ -209,6 +222,26 @@ async fn run(input: RunInput, mode: Mode) -> RunOutput {
                 });
                 w.probe("cpu-bound-handler-started");
                 interesting = true;
+                // with every slot of b's service taken: another peer's request has to wait for the
+                // service, and that peer hangs up meanwhile
+                if backpressure == Some(1) && r_cpu.gen_bool(0.5) {
+                    let c = (0..n).find(|c| *c != a && *c != b && slots[*c].node.net.peers().contains(&ids[b]) && silent_death.map(|(_, d)| d != *c).unwrap_or(true));
+                    if let Some(c) = c {
+                        sleep_ms(2 * lat_max / 1000 + 5).await;
+                        let net = slots[c].node.net.clone();
+                        tokio::spawn(async move {
+                            let _ = net.rpc(pb, Request::new(Bytes::from_static(b"queued"))).await;
+                        });
+                        sleep_ms(2 * lat_max / 1000 + 5).await;
+                        let t = w.now_ns();
+                        let _ = slots[c].node.net.disconnect(ids[b]);
+                        if !faulty && !crashed && silent_death.is_none() {
+                            clean_disconnects.push((t, c, b));
+                        }
+                        w.probe("hang-up-while-a-request-waits-for-the-service");
+                        w.event(format!("disconnect n{c}-n{b}:while-queued"));
+                    }
+                }
             }
         }
         // heal what is due
@@ -360,7 +393,11 @@ async fn run(input: RunInput, mode: Mode) -> RunOutput {
             let svc = Svc::echo(&w);
             let svc_h = svc.handle();
             stale.retain(|(si, _, _, _)| *si != i);
-            match w.start_node(spec, svc) {
+            let started = match backpressure {
+                Some(k) => w.start_node(spec, tower::limit::ConcurrencyLimit::new(svc, k)),
+                None => w.start_node(spec, svc),
+            };
+            match started {
                 Ok(node) => {
                     let log = start_watch(&w, &node, i, inc);
                     let subs = vec![Subscription::new(&node.net).unwrap()];
